@@ -16,7 +16,8 @@ PROP = dict(
                "partition the configuration (real _handle_completion arithmetic). "
                "PARTIAL: that the run reaches such a quiescent round is liveness (oracle on real executions).",
     level_note="Tied by history replay of real executions in 'batchfaults' mode (random subsets of sbatch failures, node kills "
-               "before/while jobs run, walltime kills, dependency cycles) with try-submit-jobs recovery; the direct oracle "
+               "before/while jobs run, walltime kills, dependency cycles) and 'nodefaults' mode (the node runner dies of a lock "
+               "timeout or a quota error - at open or at write time - while appending a result) with try-submit-jobs recovery; the direct oracle "
                "compares results.json (results + missing_jobs) with the simulator's ground truth of which jobs ran to the end. "
                "Trusted: Lean kernel (+3 axioms), vcluster + translation. A node killed while it is submitter is C11.",
     assumptions=["squeue stops listing a killed / timed-out batch", "exit codes are a function of the job"],
